@@ -457,8 +457,9 @@ def slice_(base, lo, hi, step=NONE):
         step = NONE
     if lo == NONE and hi == NONE and step == NONE:
         return base
-    if base[0] == 'lin' and base[1] == 0:
-        return lin(0, [(slice_(t, lo, hi, step), c) for t, c in base[2]])
+    if base[0] == 'lin' and (base[1] == 0 or any(not is_scalar(t) for t, c in base[2])):
+        # (sum c_i x_i + k)[a:b:s] = sum c_i x_i[a:b:s] + k   (numbers are broadcast, not sliced)
+        return lin(base[1], [(t if is_scalar(t) else slice_(t, lo, hi, step), c) for t, c in base[2]])
     if base[0] in ('tuple', 'list') and all(x == NONE or (isconst(x) and isinstance(x[1], int)) for x in (lo, hi, step)):
         s = slice(*(None if x == NONE else x[1] for x in (lo, hi, step)))
         return (base[0], base[1][s])
